@@ -1014,6 +1014,10 @@ dt_strfdt(char *restrict buf, size_t bsz, const char *fmt, struct dt_dt_s that)
 		}
 	}
 out:
+	if (UNLIKELY(bp > buf + bsz)) {
+		/* a field printer reports the width it wanted, not what fit */
+		bp = buf + bsz;
+	}
 	if (bp < buf + bsz) {
 		*bp = '\0';
 	}
@@ -1265,6 +1269,10 @@ dt_strfdtdur(
 		}
 	}
 out:
+	if (UNLIKELY(bp > buf + bsz)) {
+		/* a field printer reports the width it wanted, not what fit */
+		bp = buf + bsz;
+	}
 	if (bp < buf + bsz) {
 		*bp = '\0';
 	}
